@@ -68,7 +68,7 @@ func SynBatches(tier string, emit func(SynCase)) {
 	}
 	if tier == "thorough" {
 		// N=4: two ordinary documents around two synonym documents, and 4 synonym docs of a reduced menu
-		ProductOf(4, []int{0, 1, 4, 9, 12}, func(v []int) {
+		ProductOf(4, []int{0, 1, 2, 4, 6, 9, 11, 12}, func(v []int) {
 			c := SynCase{Docs: v, Mode: 2}
 			if c.NumSynDocs() > 0 {
 				emit(c)
